@@ -189,6 +189,12 @@ func (c *Checker) explore(ex *Exec, fn *ssa.Function) []Outcome {
 		if need == "" {
 			return outs
 		}
+		if strings.HasPrefix(need, "global:") {
+			if msg := ex.RunGlobalInit(strings.TrimPrefix(need, "global:")); msg != "" {
+				return []Outcome{{St: st, Kind: OAbort, Abort: "UNSUPPORTED: initialiser of " + need + " failed: " + msg}}
+			}
+			continue
+		}
 		if msg := ex.RunPkgInit(need); msg != "" {
 			return []Outcome{{St: st, Kind: OAbort, Abort: "UNSUPPORTED: init of " + need + " failed: " + msg}}
 		}
